@@ -45,6 +45,14 @@ def run(chk):
             t['id'] = i['id'] = len(traces) + 1
             traces.append(t)
             infos.append(i)
+        if scen == 'tunnel':
+            # the same schedules through the other relay implementation of the code base: a work class built on
+            # BaseTcpTunnelHandler / BaseTcpServerHandler (examples/https_connect_tunnel.py), on the same executor
+            t3, _d3, i3 = cc.replay_all(behs[::2], scen, n, [u for u in units if u * RV >= 64] or [64], seed=seed + 17 + 2, work='example-tunnel')
+            for t, i in zip(t3, i3):
+                t['id'] = i['id'] = len(traces) + 1
+                traces.append(t)
+                infos.append(i)
         drift_total += len(drifts)
         for d in drifts[:5]:
             print('MODEL-DRIFT (not a violation): ConnTick and the code disagree at step %(step)s (%(action)s) on %(var)s' % d, d)
@@ -66,7 +74,7 @@ def run(chk):
             sig = cc.classify(clause, traces[tid - 1], idx)
             info = infos[tid - 1]
             chk.violation(sig, '%s schedule %s (unit %d bytes%s): %s' % (
-                scen + ('/threaded' if info.get('mode') == 'threaded' else ''), ' '.join(info['schedule']), info['U'], ', ' + info['framing'] if info['framing'] else '', clause),
+                scen + ('/threaded' if info.get('mode') == 'threaded' else '') + ('/BaseTcpTunnelHandler' if info.get('work') == 'example-tunnel' else ''), ' '.join(info['schedule']), info['U'], ', ' + info['framing'] if info['framing'] else '', clause),
                 {'info': info, 'rejected_event_index': idx, 'events': traces[tid - 1]['ev'][max(0, idx - 12):idx + 1]})
         for info, tr in list(zip(infos, traces))[:2]:
             chk.sample({'scenario': info['scen'], 'unit_bytes': info['U'], 'schedule': info['schedule'], 'events': len(tr['ev']),
